@@ -273,7 +273,7 @@ void harness(void) {
   #endif
     int zz = VZZ < 0 ? ZZMAX : VZZ;
     _Alignas(16) val_t v[VCNT ? VCNT : 1];         /* the ORIGINAL values */
-    uint8_t st[1400]; size_t slen = 0;
+    uint8_t st[4400]; size_t slen = 0;
   #if VSRC == 0
     /* (a) through the reference ENCODER: symbolic values, dictated widths */
     if (VCNT) symx_make_symbolic(v, sizeof(val_t) * VCNT, "v");
